@@ -183,6 +183,9 @@ class BooleanOperationsMixin:
                         newpath.append(orig)
                 else:
                     newpath.append(Line(key[0] / precision, key[1] / precision))
+            # The closing edge may belong to the curve the polygon started on
+            if len(newpath) > 1 and newpath[-1] == newpath[0]:
+                newpath.pop()
             outpaths.append(BezierPath.fromSegments(newpath))
         return outpaths
 
